@@ -22,7 +22,7 @@ MATCHER_MODULES = ["rp2.tax_engine", "rp2.accounting_engine", "rp2.abstract_acco
 
 def items(pr):
     out = [fn(AAM + "AbstractChronologicalAccountingMethod.seek_non_exhausted_acquired_lot"), lemma("C01.rank"), custom("no_global_state", no_global_state),
-           custom("set_to_index_window", set_to_index_window)]
+           custom("set_to_index_window", set_to_index_window), custom("computed_data_call_sites", computed_data_call_sites)]
     for m in ("lifo", "hifo", "lofo"):
         out.append(fn(f"{PLUG}{m}.AccountingMethod.sort_key"))
     return out
@@ -61,10 +61,18 @@ def set_to_index_window(pr):
     probe = [ast.unparse(n) for n in ast.walk(e.node) if isinstance(n, ast.Call) and getattr(n.func, "attr", "") == "find_max_value_less_than"]
     ok3 = "self.__acquired_lot_avl.find_max_value_less_than(self._get_avl_node_key_with_max_disambiguator(taxable_event.timestamp))" in probe
     k = pr.tree.func("rp2.accounting_engine.AccountingEngine._get_avl_node_key")
-    ok4 = "astimezone(timezone.utc)" in ast.unparse(k.node)
+    from pyvc import astcheck as A
+    K = A.Fn(pr.tree, "rp2.accounting_engine.AccountingEngine._get_avl_node_key")
+    # fixed-width UTC digits down to the microsecond, then the zero-padded id: string order = (instant, id) order
+    ok4 = K.has("return f\"{timestamp.astimezone(timezone.utc).strftime('%Y%m%d%H%M%S.%f')}_{internal_id:0>{self.KEY_DISAMBIGUATOR_LENGTH}}\"") and len(K.node.body) <= 2
     return [VC(f.qualname, "readframe", "pushes_only_lots_up_to_to_index", [], z3.BoolVal(ok2), f.loc(), 0, note=f"iter={ast.unparse(loops[0].iter) if loops else None} subs={subs}"),
             VC(e.qualname, "readframe", "upper_bound_is_the_last_lot_not_later_than_the_event", [], z3.BoolVal(ok3), e.loc(), 0, note=str(probe)),
             VC(k.qualname, "readframe", "lot_keys_are_utc_instants", [], z3.BoolVal(ok4), k.loc(), 0)]
+
+
+def computed_data_call_sites(pr):
+    from props import C06
+    return C06.computed_data_call_sites(pr)
 
 
 MANIFEST_ENTRY = {
